@@ -88,9 +88,10 @@ class Build:
         self.t_lower = time.time() - t0
         inc = ['-I', os.path.join(ROOT, 'model'), '-I', self.gen, '-I', os.path.join(ROOT, 'contracts')]
         self.inc = inc
-        for src, out in ((os.path.join(self.gen, 'low.c'), 'low.gb'),
-                         (os.path.join(ROOT, 'model', 'vf_std.c'), 'vf_std.gb')):
-            rc, so, se, _ = sh(['goto-cc', '-D__CPROVER__VF'] + inc + ['-c', src, '-o', os.path.join(self.dir, out)])
+        for src, out, defs in ((os.path.join(self.gen, 'low.c'), 'low.gb', []),
+                               (os.path.join(ROOT, 'model', 'vf_std.c'), 'vf_std.gb', []),
+                               (os.path.join(ROOT, 'model', 'vf_std.c'), 'vf_std_trk.gb', ['-DVF_TRACK_ALLOC'])):
+            rc, so, se, _ = sh(['goto-cc', '-D__CPROVER__VF'] + defs + inc + ['-c', src, '-o', os.path.join(self.dir, out)])
             if rc != 0:
                 raise Undecided('goto-cc failed on %s:\n%s' % (src, (so + se)[-3000:]))
         return self
@@ -178,6 +179,7 @@ def classify(r, unit, tags):
         ob['cls'] = 'ub'
     elif '.assertion.' in pid:
         if 'operator[] index' in desc or 'delete' in desc or 'pop_back' in desc or 'ill-formed' in desc \
+                or 'ostream::write source' in desc or 'istream::read destination' in desc \
                 or 'default constructor' in desc:
             ob['cls'] = 'memsafe'
         else:
@@ -197,8 +199,10 @@ def unit_cmds(u, b, out):
     src = os.path.join(ROOT, u['src'])
     ugb = os.path.join(out, 'u.gb')
     igb = os.path.join(out, 'i.gb')
-    cc = ['goto-cc', '-D__CPROVER__VF'] + b.inc + [os.path.join(b.dir, 'low.gb'), os.path.join(b.dir, 'vf_std.gb'),
-                                                    src, '--function', u['harness'], '-o', ugb]
+    trk = bool(u.get('track_alloc'))
+    cc = ['goto-cc', '-D__CPROVER__VF'] + (['-DVF_TRACK_ALLOC'] if trk else []) + [('-D' + d) for d in u.get('defines', [])] + \
+        b.inc + [os.path.join(b.dir, 'low.gb'), os.path.join(b.dir, 'vf_std_trk.gb' if trk else 'vf_std.gb'),
+                 src, '--function', u['harness'], '-o', ugb]
     gi = ['goto-instrument']
     if u.get('mode', 'dfcc') == 'dfcc':
         gi += ['--dfcc', u['harness']]
@@ -222,7 +226,7 @@ def unit_cmds(u, b, out):
         cb += ['--object-bits', str(u['object_bits'])]
     if u.get('slice'):
         cb += ['--slice-formula']
-    sat = u.get('sat', 'cadical')
+    sat = u.get('sat', 'minisat')
     if sat == 'kissat':
         cb += ['--external-sat-solver', 'kissat']
     elif sat in ('z3', 'cvc5'):
@@ -239,8 +243,8 @@ def run_unit(u, b, keep=None, trace=False, use_cache=True):
     out = tempfile.mkdtemp(prefix='u_%s.' % u['name'], dir=b.dir)
     res = {'unit': u['name'], 'obligations': [], 'error': None, 'solver_s': 0.0, 'cached': False,
            'backend': {'kissat': 'kissat (external SAT solver)', 'minisat': 'cbmc built-in SAT (minisat2)',
-                       'z3': 'z3 (SMT2)', 'cvc5': 'cvc5 (SMT2)'}.get(u.get('sat', 'cadical'),
-                                                                      'cbmc built-in SAT (%s)' % u.get('sat', 'cadical'))}
+                       'z3': 'z3 (SMT2)', 'cvc5': 'cvc5 (SMT2)'}.get(u.get('sat', 'minisat'),
+                                                                      'cbmc built-in SAT (%s)' % u.get('sat', 'minisat'))}
     try:
         cc, gi, cb, igb = unit_cmds(u, b, out)
         rc, so, se, _ = sh(cc, timeout=300)
@@ -304,6 +308,13 @@ def run_unit(u, b, keep=None, trace=False, use_cache=True):
             if trace and r.get('trace') and r['status'] == 'FAILURE':
                 ob['trace'] = r['trace']
             res['obligations'].append(ob)
+        # CBMC reports UNKNOWN for checks that are shadowed by a failed assertion earlier on the same path; they are
+        # not counted as discharged.  UNKNOWN without any failure in the unit means the solver gave no answer.
+        if any(o['status'] == 'UNKNOWN' for o in res['obligations']) and \
+                not any(o['status'] == 'FAILURE' and o['cls'] != 'vacuity' for o in res['obligations']):
+            res['error'] = res['error'] or 'cbmc left obligations UNKNOWN (solver gave no definite answer)'
+        if any(o['status'] == 'ERROR' for o in res['obligations']):
+            res['error'] = res['error'] or 'cbmc: solver error (out of memory / resource limit) - verdicts incomplete'
         # vacuity: the canary must be reachable (i.e. reported FAILED)
         can = [o for o in res['obligations'] if o['cls'] == 'vacuity']
         if not can or any(o['status'] != 'FAILURE' for o in can):
